@@ -16,7 +16,7 @@ THEOREMS = [
     "Gozod.C17.c17_bigint_sound", "Gozod.C17.roundTo_correct", "Gozod.C17.c17_int_to_f64_nearest", "Gozod.C17.c17_int_to_f64_exact",
     "Gozod.C17.rneDiv_nearest", "Gozod.C17.roundMag_correct", "Gozod.C17.c17_float64_sound", "Gozod.C17.c17_float64_nan_err", "Gozod.C17.c17_float64_finite", "Gozod.C17.c17_f32_no_inf",
     "Gozod.C17.c17_bool_table", "Gozod.C17.c17_bool_sound", "Gozod.C17.c17_schema", "Gozod.C17.c17_schema_exact_first",
-    "Gozod.C17.c17_schema_int_sound", "Gozod.C17.c17_float64_partial", "Gozod.C17.complex_magnitude_witness",
+    "Gozod.C17.c17_schema_int_sound", "Gozod.C17.c17_schema_sound", "Gozod.C17.c17_schema_check_exact", "Gozod.C17.toInteger_int_iff", "Gozod.C17.c17_float64_partial", "Gozod.C17.complex_magnitude_witness",
     "Gozod.C17.legacy_int64_wraps_f64", "Gozod.C17.legacy_int64_wraps_f32", "Gozod.C17.legacy_integer_truncates",
     "Gozod.C17.legacy_integer_nan", "Gozod.C17.legacy_not_sound",
 ]
